@@ -36,6 +36,7 @@ def main() -> int:
     aud = dict(names=[], examples=0, axioms={}, bad=[])
     try:
         mod = importlib.import_module(pid.lower())
+        C.prepare_scratch_lean()
         # ---- 1. translate + build -------------------------------------------------------------
         with C.BuildLock():
             ok_t, log_t = C.translate()
